@@ -248,6 +248,35 @@ def Inst.call (i : Inst) (c : CallCfg) (e : CallEvs) : Inst :=
                selLines := fun n => if c.sel.strOn n then splitLines (r.str n) else [],
                tab := r.tab } }
 
+/-- a `Run*` call on an instance WITHOUT a loaded database: `open_output_files` (files whose switch is on are
+re-created), `check_database` (clears the views, then raises "No database is loaded" with STOP) — `do_run` is never
+entered, so no punch event occurs and the out/log line vectors are split only when `refreshed` (the shape of
+`check_database` read from the source: are the line vectors re-split after the error?). -/
+def Inst.callNoDb (refreshed : Bool) (i : Inst) (c : CallCfg) (e : CallEvs) : Inst :=
+  let r := i.call c { e with pevs := [] }
+  if refreshed then r else { r with views := { r.views with outLines := [], logLines := [] } }
+
+/-- a FAILED `LoadDatabase` / `LoadDatabaseString`: the three file switches are forced off for the duration (no file
+is opened or written), `UnLoadDatabase` clears error and warning text and every selected-output table, string and
+line vector — but NOT the output and log strings, which the messages of the failed load are appended to.
+`refreshed`: the out/log line vectors are re-split afterwards (source shape); otherwise they keep showing the lines
+of the previous call. -/
+def Inst.loadFail (refreshed : Bool) (i : Inst) (c : CallCfg) (e : CallEvs) : Inst :=
+  let o := routeMsgs ⟨c.out.strOn, false⟩ e.outs
+  let l := routeMsgs ⟨c.log.strOn, false⟩ e.logs
+  let ec : ErrCfg := ⟨c.err.errStrOn, c.err.warnStrOn, false⟩
+  let errStr := (errStrChunks ec e.errs).flatten
+  let warnStr := (warnStrChunks ec e.errs).flatten
+  let outStr := i.views.outStr ++ o.str
+  let logStr := i.views.logStr ++ l.str
+  { disk := i.disk,
+    views := { outStr := outStr,
+               outLines := if refreshed then (if c.out.strOn then splitLines outStr else []) else i.views.outLines,
+               logStr := logStr,
+               logLines := if refreshed then (if c.log.strOn then splitLines logStr else []) else i.views.logLines,
+               errStr := errStr, errLines := splitLines errStr,
+               warnStr := warnStr, warnLines := splitLines warnStr } }
+
 def Inst.run (i : Inst) (h : List (CallCfg × CallEvs)) : Inst := h.foldl (fun i ce => i.call ce.1 ce.2) i
 
 /-! ## Which punch files `do_run` (re)opens and which heading lines `tidy_punch` writes
